@@ -3,7 +3,7 @@
    compat = model of pipefunc.typing.is_type_compatible (Model/Ty.v, after the repairs listed there),
    sub    = declarative relation from the property text (Model/Ty.v),
    subb   = its decision procedure, the oracle of the correspondence check (Model/TySpec.v). *)
-From Verif Require Import Base.Prelude Model.Ty Model.TyPipe Model.TySpec Proofs.TyFacts.
+From Verif Require Import Base.Prelude Model.Ty Model.TyPipe Model.TySpec Proofs.TyFacts Proofs.TyPipeFacts Corr.Run_C16.
 
 (* --- the algebraic laws named by the property, for ALL annotations of the grammar --- *)
 Theorem C16_compat_reflexive : forall a, compat a a = true.
@@ -67,3 +67,47 @@ Theorem C16_compat_union_tgt_intro : forall a t l,
   wf a = true -> wf (TUnion l) = true -> notv a = true -> In t l -> compat a t = true -> compat a (TUnion l) = true.
 Proof. exact compat_union_tgt_intro. Qed.
 Print Assumptions C16_compat_union_tgt_intro.
+
+(* --- pipelines (model of validate_consistent_type_annotations, Model/TyPipe.v).
+       spec_edges fs = the edges of the pipeline with their effective source type: the return annotation,
+       wrapped in Array when the output is consumed through a MapSpec reduction.
+       pipe_guard = annotations in normal form, no TypeVar in a return annotation (finding typevar-source-accepted),
+       no mapped function returning an object-array type (finding reduced-array-output-not-wrapped).
+       Full statements = the same without the last two conjuncts of pipe_guard; they are refuted on the real code
+       by the witnesses of known_findings.jsonl. --- *)
+Theorem C16_validation_off_accepts_all : forall fs, construct fs false = Ok tt.
+Proof. exact validation_off_accepts_all. Qed.
+Print Assumptions C16_validation_off_accepts_all.
+
+Theorem C16_edges_ok_accepts_partial : forall fs,
+  pipe_guard fs = true ->
+  (forall e, In e (spec_edges fs) -> sub (fst e) (snd e)) ->
+  construct fs true = Ok tt.
+Proof. exact edges_ok_accepts. Qed.
+Print Assumptions C16_edges_ok_accepts_partial.
+
+Theorem C16_bad_edge_rejects_partial : forall fs e,
+  pipe_guard fs = true -> In e (spec_edges fs) -> ~ sub (fst e) (snd e) ->
+  construct fs true = Err TypeError.
+Proof. exact bad_edge_rejects. Qed.
+Print Assumptions C16_bad_edge_rejects_partial.
+
+(* a reduction pipeline inside the guard: y maps over x, z takes the whole array *)
+Definition ex_reduce (b : ty) : list pfunc :=
+  [ Fn (s "y") (TUnion [TCls CBool; TCls CNone]) [(s "x", Some (TCls CInt))]
+       (Some (Ms [(s "x", [Some (s "i")])] [(s "y", [Some (s "i")])]));
+    Fn (s "z") (TCls CInt) [(s "y", Some b)] None ].
+Example C16_pipeline_guard_nonvacuous :
+  pipe_guard (ex_reduce (TArray (TUnion [TCls CInt; TCls CNone]))) = true
+  /\ spec_edges (ex_reduce (TArray (TUnion [TCls CInt; TCls CNone])))
+     = [(TArray (TUnion [TCls CBool; TCls CNone]), TArray (TUnion [TCls CInt; TCls CNone]))]
+  /\ construct (ex_reduce (TArray (TUnion [TCls CInt; TCls CNone]))) true = Ok tt
+  /\ pipe_guard (ex_reduce (TUnion [TCls CInt; TCls CNone])) = true
+  /\ construct (ex_reduce (TUnion [TCls CInt; TCls CNone])) true = Err TypeError.
+Proof. vm_compute. repeat split. Qed.
+
+(* --- the executable statement evaluated by the correspondence check holds of the model on every valid case
+       (valid: Corr/Run_C16.v) --- *)
+Theorem C16_spec_ok_on_model : forall c, valid c = true -> spec_ok c (run c) = true.
+Proof. exact spec_ok_on_model. Qed.
+Print Assumptions C16_spec_ok_on_model.
